@@ -173,12 +173,8 @@ func (a *Anchors) Field(role string) string {
 		tyRole = "xss.state"
 	}
 	st := a.Struct(tyRole)
-	if st != nil {
-		for i := 0; i < st.NumFields(); i++ {
-			if st.Field(i).Name() == name {
-				return name
-			}
-		}
+	if st != nil && hasFieldDeep(st, name, 0) {
+		return name
 	}
 	a.fail(role, fmt.Sprintf("field %q not found in %s", name, a.Types[tyRole]))
 	return name
@@ -223,4 +219,24 @@ func (a *Anchors) loadsField(v ssa.Value, role string) bool {
 		return false
 	}
 	return a.isField(u.X, role)
+}
+
+// hasFieldDeep: the struct has the field, directly or promoted from an embedded struct.
+func hasFieldDeep(st *types.Struct, name string, depth int) bool {
+	for i := 0; i < st.NumFields(); i++ {
+		f := st.Field(i)
+		if f.Name() == name {
+			return true
+		}
+		if f.Embedded() && depth < 3 {
+			t := f.Type()
+			if p, ok := t.Underlying().(*types.Pointer); ok {
+				t = p.Elem()
+			}
+			if es, ok := t.Underlying().(*types.Struct); ok && hasFieldDeep(es, name, depth+1) {
+				return true
+			}
+		}
+	}
+	return false
 }
